@@ -297,7 +297,8 @@ def run(res):
                       "on them" % (o, a, b, n), {"ops": [o], "impl": a, "model": b,
                                                  "unchecked": "correspondence Model/ArgShuffle.lean ~ emithelper.cpp/funcargscontext.cpp"},
                       False, key="corr")
-    elif broken and not res.violations:
+    if broken:
+        # always reported (known findings among res.violations must not hide a failed proof build)
         res.violation("proof obligation no longer checks: " + " | ".join(broken)[:1500], {"unchecked": broken}, False, key="obligation")
 
 
